@@ -32,6 +32,10 @@ def gen_case(seed):
     kind = r.pick(['kernel', 'kernel', 'kernel', 'steps', 'struct', 'struct', 'struct'])
     if kind == 'kernel':
         base = kernel.gen_case(derive(seed, 'base'))
+        k_ = 0
+        while not base['procs']:
+            k_ += 1
+            base = kernel.gen_case(derive(seed, 'base', k_))
         base['opts']['emit_step'] = 1
         for sp in base['procs']:
             _depoll(sp)
